@@ -390,6 +390,11 @@ class Integer(Element):
         value = self.enforce_length(value)
         return str(value)
 
+    @unconvert.register
+    def _unconvert_bool(self, value: bool):
+        # bool is a subclass of int, but "True" is not an OFX integer
+        raise TypeError(f"{value!r} is not an instance of {self.__class__.__name__}")
+
 
 #  N.B. "scale" here means "decimal places"
 #  i.e. Decimal(2).convert("12345.67890") is Decimal("12345.68")
